@@ -44,11 +44,16 @@ class ClassRef(object):
 
 
 class Closure(object):
-    def __init__(self, node, env, interp, self_obj=None, cls=None):
+    def __init__(self, node, env, interp, self_obj=None, cls=None, module=None):
         self.node = node
         self.env = env
         self.self_obj = self_obj
         self.cls = cls
+        # the module the code was defined in: names inside the body are resolved there
+        self.module = module
+        if module is None and interp is not None and interp.model is not None:
+            fi = interp.model.func_of_node(node) if not isinstance(node, ast.Lambda) else None
+            self.module = fi.module if fi is not None else interp.module
 
 
 class _Return(Exception):
@@ -102,7 +107,7 @@ class Interp(object):
     def __init__(self, model=None, module=None, hooks=None, version=None, max_depth=40):
         self.model = model
         self.module = module
-        self.hooks = hooks or {}
+        self.hooks = hooks if hooks is not None else {}
         self.version = tuple(version or sys.version_info[:3])
         self.events = []
         self.unknown = []
@@ -111,6 +116,7 @@ class Interp(object):
         self.depth = 0
         self.max_depth = max_depth
         self.globals = {}
+        self._modvars = {}
 
     # ------------------------------------------------------------------ path exploration
     def explore(self, thunk):
@@ -202,6 +208,22 @@ class Interp(object):
                 return ClassRef(q.rsplit('.', 1)[1])
             if q in self.model.funcs:
                 return Closure(self.model.funcs[q].node, {}, self)
+            if q and '.' in q:
+                # module-level variable imported from another package module (e.g. util.is_namespace = create_is_namespace())
+                mod, _, name = q.rpartition('.')
+                v = self.model.module_assigns.get(mod, {}).get(name)
+                if v is not None:
+                    key = (mod, name)
+                    if key not in self._modvars:
+                        old = self.module
+                        self.module = mod
+                        try:
+                            self._modvars[key] = self.ev(v, {})
+                        except Exception:
+                            self._modvars[key] = TOP
+                        finally:
+                            self.module = old
+                    return self._modvars[key]
         return TOP
 
     def ev_Tuple(self, e, env):
@@ -673,6 +695,9 @@ class Interp(object):
             env[a.kwarg.arg] = {k: v for k, v in kwargs.items() if k not in pos}
         env['__class_ctx__'] = clo.cls
         self.depth += 1
+        old_module = self.module
+        if clo.module is not None:
+            self.module = clo.module
         try:
             if isinstance(node, ast.Lambda):
                 return self.ev(node.body, env)
@@ -686,6 +711,7 @@ class Interp(object):
             return env['__yields__'] if is_gen else None
         finally:
             self.depth -= 1
+            self.module = old_module
 
     def call_method(self, cls_qual, name, self_obj, args, kwargs=None):
         fi = self.model.method(cls_qual, name)
